@@ -24,6 +24,7 @@ func rulesC05(c *Ctx) {
 	ruleRunElectionTable(c)
 	ruleElectionWriters(c)
 	ruleLockDiscipline(c, lockSel{classes: []string{"Server.elecMu"}})
+	ruleElectionAtomic(c)
 }
 
 // ordOf reads the order of term a relative to term b from a valuation.
